@@ -13,7 +13,7 @@ def run(ctx):
     #    from the current and from a stale version, renames, deletes, wrong event types, builtin
     #    ids, racing pairs) in every state reachable with MaxOps effective operations
     r, items = M.mc(ctx, "MetaDB_ent.cfg", "ent", {"MaxOps": "= 3"}, INV, PROP, export=True)
-    items = M.sample(ctx, items, 3000 if th else 350, 1)
+    items = M.sample(ctx, items, 3000 if th else 500, 1)
     if th:
         M.mc(ctx, "MetaDB_ent.cfg", "ent deep", {"MaxOps": "= 4"}, INV, PROP, timeout=7200, coverage=True)
         # liveness of the properties: the type-confusion defect switched back on renames a namespace
@@ -25,7 +25,7 @@ def run(ctx):
     # 2. seeded random long histories (4 event types, 2 namespaces, builtin ids, races, reopen)
     rnd = random.Random(ctx.seed)
     for k in range(3 if th else 1):
-        r, it = M.scripts(ctx, "scripts %d" % k, {"ent"}, 300 if th else 70, 40, (2, 10, 1, 0, 1003 + 17 * k), INV, PROP, salt=10 + k)
+        r, it = M.scripts(ctx, "scripts %d" % k, {"ent"}, 300 if th else 100, 40, (2, 10, 1, 0, 1003 + 17 * k), INV, PROP, salt=10 + k)
         items += it
     # 3. the real DBV2
     M.drive(ctx, "C15", items, "entities")
